@@ -61,7 +61,7 @@ package bytes
 //@   let c := content(b)
 //@   modifies content(b)
 //@   ensures ok: len(c) >= 4 ==> result0 == un32(c[0:4]) && result1 == nil && content(b) == c[4:]
-//@   ensures C13/short: len(c) < 4 ==> result0 == 0 && result1 != nil && content(b) == ""
+//@   ensures short: len(c) < 4 ==> result0 == 0 && result1 != nil && content(b) == ""
 //@   nopanic
 
 //@ func (*ByteBuffer).ReadUint64
@@ -70,7 +70,7 @@ package bytes
 //@   let c := content(b)
 //@   modifies content(b)
 //@   ensures ok: len(c) >= 8 ==> result0 == un64(c[0:8]) && result1 == nil && content(b) == c[8:]
-//@   ensures C13/short: len(c) < 8 ==> result0 == 0 && result1 != nil && content(b) == ""
+//@   ensures short: len(c) < 8 ==> result0 == 0 && result1 != nil && content(b) == ""
 //@   nopanic
 
 //@ func (*ByteBuffer).WriteUint16
@@ -160,7 +160,7 @@ package bytes
 //@   let c := content(buf)
 //@   modifies content(buf)
 //@   ensures ok: len(c) >= 4 ==> result == un32(c[0:4]) && content(buf) == c[4:]
-//@   ensures C13/short: len(c) < 4 ==> result == 0 && content(buf) == ""
+//@   ensures short: len(c) < 4 ==> result == 0 && content(buf) == ""
 //@   nopanic
 
 //@ func ReadUInt64
@@ -169,7 +169,7 @@ package bytes
 //@   let c := content(buf)
 //@   modifies content(buf)
 //@   ensures ok: len(c) >= 8 ==> result == un64(c[0:8]) && content(buf) == c[8:]
-//@   ensures C13/short: len(c) < 8 ==> result == 0 && content(buf) == ""
+//@   ensures short: len(c) < 8 ==> result == 0 && content(buf) == ""
 //@   nopanic
 
 //@ func ReadString8Length
